@@ -8,7 +8,7 @@ import gen_scripts as G
 PROP_FILES = ["Properties/C10.v"]
 RULE = ("for each limit L in {520-byte push, 1000 stack+alt items, 201 counted ops (incl. multisig key counts), 10000-byte script, 20 multisig keys, "
         "4/5-byte numeric operands}: scripts reaching L-1, L, L+1 by every listed route (direct pushes, DUP chains, alt-stack moves, 3DUP bursts, "
-        "unexecuted branches, op count carried across scriptSig->scriptPubKey (reset), CHECKMULTISIG key counts) x {BASE, WITNESS_V0, TAPSCRIPT}, "
+        "unexecuted branches, the same inside a scriptPubKey / P2SH redeem script, scriptPubKey size after a scriptSig, op count carried across scriptSig->scriptPubKey (reset), CHECKMULTISIG key counts) x {BASE, WITNESS_V0, TAPSCRIPT}, "
         "run with ContinueScript and the final state/error compared with the model; non-trivial = all")
 
 def gen(chk):
@@ -24,6 +24,16 @@ def gen(chk):
             add(G.push(bytes(n)), sv=sv)
             add(G.push(bytes(n)) + bytes([O("OP_DROP"), O("OP_1")]), sv=sv)
             add(bytes([O("OP_0"), O("OP_IF")]) + G.push(bytes(n)) + bytes([O("OP_ENDIF"), O("OP_1")]), sv=sv)   # unexecuted
+        # ... the same when the script arrives as scriptPubKey (not screened by the command line's HasValidOps) or as a P2SH redeem script
+        # handed over on the stack
+        if sv == 0:
+            import hashlib
+            for n in (519, 520, 521, 522):
+                for body in (G.push(bytes(n)) + bytes([O("OP_DROP"), O("OP_1")]), bytes([O("OP_0"), O("OP_IF")]) + G.push(bytes(n)) + bytes([O("OP_ENDIF"), O("OP_1")]),
+                             bytes([O("OP_1"), O("OP_IF"), O("OP_1"), O("OP_ELSE")]) + G.push(bytes(n)) + bytes([O("OP_ENDIF")])):
+                    add(bytes([O("OP_1")]), sv=sv, extra="succ=%s " % G.hexs(body))
+                    h = hashlib.new("ripemd160", hashlib.sha256(body).digest()).digest()
+                    add(bytes([O("OP_HASH160"), 20]) + h + bytes([O("OP_EQUAL")]), st=[body], fl=G.FLAG("P2SH"), sv=sv)
         # stack size via initial stack + DUP chains / 3DUP / alt moves
         for total in (998, 999, 1000, 1001, 1002):
             add(bytes([O("OP_1")] * total), sv=sv)
@@ -50,6 +60,12 @@ def gen(chk):
         # script size
         for n in (9999, 10000, 10001):
             add(bytes([O("OP_1")] + [O("OP_NOP")] * 0) + G.push(bytes(75)) * ((n - 1) // 76) + bytes([O("OP_1")] * ((n - 1) % 76)), sv=sv, cmds="s")
+        # ... and for the scriptPubKey that follows a scriptSig
+        if sv == 0:
+            for n in (9999, 10000, 10001, 10002):
+                spk = bytes([O("OP_1")]) + G.push(bytes(75)) * ((n - 1) // 76) + bytes([O("OP_1")] * ((n - 1) % 76))
+                add(bytes([O("OP_1")]), sv=sv, extra="succ=%s " % G.hexs(spk))
+                add(b"", sv=sv, extra="succ=%s " % G.hexs(spk))
         # multisig key counts and their op-count contribution
         if sv != 3:
             for nk in (19, 20, 21):
